@@ -56,6 +56,11 @@ class C14(Prop):
                     p["scripts"]["%d:1" % oid_] = {"replies": [{"k": "genuine", "rewrite": {"cipher-trim": rng.randint(1, 9)}}] + ([{"k": "genuine", "delay_ns": 1_500_001}] if rng.random() < 0.5 else [])}
                 elif r < 0.25:
                     p["scripts"]["%d:1" % oid_] = {"replies": [{"k": "genuine", "rewrite": {"salt": bytes(rng.randrange(256) for _ in range(8)).hex(), "msg-id": rng.choice(["same", "xor1"])}}, {"k": "genuine", "delay_ns": 1_500_001}]}
+        if family == "random-salt" and rng.random() < 0.3:
+            # a request too large to encode (SnmpEncodeError, nothing on the wire) between two others
+            big = {"id": 90000, "s": 0, "op": "get_many", "oids": [gen.oid_text(gen.oid(rng, min_extra=8, max_extra=10, small=0.0)) for _ in range(400)]}
+            pos = rng.randint(2, max(2, len(p["ops"]) - 1))
+            p["ops"].insert(pos, big)
         if family.startswith("wrap"):
             near = rng.randint(1, max(2, n // 2))
             salt = ((2**32 if family == "wrap-des" else 2**64) - near) & 0xFFFFFFFFFFFFFFFF
@@ -70,6 +75,7 @@ class C14(Prop):
         oid_hist = {}
         seen = {}
         prev = {}
+        prev_t = {}
         count = {}
         first = {}
         for s, res, n, ex, dec, raw, exp, deferred, tr in v3common.iter_v3_tx(run):
@@ -113,10 +119,13 @@ class C14(Prop):
                 mod = 2**64
             if s in prev:
                 if ctr != (prev[s][0] + 1) % mod:
-                    out.append(V("C14.counter-step", "salt counter went from %d to %d (message %d)" % (prev[s][0], ctr, count[s]), alg=palg))
+                    # did a request that could not be encoded (and was not sent) come in between?
+                    refused = sum(1 for r2 in run.results if r2["s"] == s and prev_t.get(s, -1) <= r2["t0"] <= res["t0"] and "exc" in r2 and "PySnmpEncodeError" in r2["exc"]["mro"] and r2 is not res)
+                    out.append(V("C14.counter-step", "salt counter went from %d to %d (message %d)%s" % (prev[s][0], ctr, count[s], "; %d request(s) refused with SnmpEncodeError in between" % refused if refused else ""), alg=palg, after_encode_error=bool(refused) and (ctr - prev[s][0]) % mod == 1 + refused))
                 if ctr < prev[s][0]:
                     run.sim.count("probe.des-wrap-crossed" if palg == 1 else "probe.aes-wrap-crossed")
             prev[s] = (ctr, salt[:4])
+            prev_t[s] = res["t0"]
             # nothing of the scoped PDU readable anywhere in the datagram: the OIDs of this and of earlier
             # requests (two random 32-bit arcs each) cannot occur in ciphertext by chance
             run.sim.count("probe.cleartext-scan")
